@@ -901,6 +901,168 @@ def check_escn(rep, obs, method, taumax, lag, sym, window, thr):
              sample=W if defined else None)
 
 
+# ---- EventSeriesClimateNetwork: significance options (p_value, method '*_pval') and more
+#      nodes than samples
+
+N_SURR = 8      # dyadic: count / 8 and the p_value thresholds k / 8 are exact in binary floating point
+
+
+def _exact_entries(cols, method, taumax, lag, sym, window):
+    """{(i, j): None | (exact symmetrised value before scaling, scale)} for i != j; for ES the
+    value is the symmetrised coincidence count and scale = sqrt((l_i - 2)(l_j - 2))."""
+    N = len(cols)
+    out = {}
+    for i in range(N):
+        for j in range(N):
+            if i == j:
+                continue
+            if method == "ES":
+                lo, hi = min(i, j), max(i, j)
+                c = S.es_counts(cols[lo], cols[hi], fx(taumax), fx(lag))
+                if c is None:
+                    out[i, j] = None
+                    continue
+                a, b = (c[0], c[1]) if i < j else (c[1], c[0])
+                scale = math.sqrt(c[2])
+            else:
+                a = S.eca_window(cols[i], cols[j], fx(taumax), fx(lag), window)
+                b = S.eca_window(cols[j], cols[i], fx(taumax), fx(lag), window)
+                scale = 1.0
+            if a is None or (sym != "directed" and b is None):
+                out[i, j] = None
+            else:
+                out[i, j] = (S.symmetrise(a, b if b is not None else F(0), sym), scale)
+    return out
+
+
+def check_escn_sig(rep, Em, mode, method, taumax, lag, sym, window, p_value, rseed):
+    """Em: T x N binary event matrix (list of lists of 0/1) used as the observable.
+    mode 'p_value': method ES / ECA with the documented p_value option - scores whose significance
+    level (fraction of the N_SURR shuffle surrogates with a strictly smaller score) is below
+    1 - p_value are set to zero, the others keep exactly the ES / ECA value.
+    mode 'pval': method 'ES_pval' / 'ECA_pval' - the similarity is the matrix of significance levels.
+    In both modes the network links exactly the pairs with positive similarity.  The surrogates are
+    reproduced by the harness: np.random is seeded, every surrogate shuffles each column of the
+    previous surrogate in column order (the documented Monte-Carlo scheme) and is scored with the
+    counting rules of specs/eventseries.py on index timestamps."""
+    from pyunicorn.core import GeoGrid
+    from pyunicorn.climate import ClimateData
+    from pyunicorn.climate.eventseries_climatenetwork import EventSeriesClimateNetwork
+    arr = np.array(Em, dtype=float)
+    T, N = arr.shape
+    W = {"kind": "escn_sig", "E": arr.astype(int).tolist(), "mode": mode, "method": method,
+         "taumax": "inf" if taumax is None else float(taumax), "lag": float(lag), "sym": sym,
+         "window": window, "p_value": p_value, "n_surr": N_SURR, "rseed": int(rseed)}
+    kw = dict(taumax=fl(taumax), lag=float(lag), symmetrization=sym, window_type=window, silence_level=3,
+              n_surr=N_SURR)
+
+    def make():
+        grid = GeoGrid(time_seq=np.arange(T, dtype=float), lat_seq=np.linspace(-40., 40., N),
+                       lon_seq=np.linspace(5., 150., N))
+        cd = ClimateData(observable=arr.copy(), grid=grid, time_cycle=1, silence_level=3)
+        np.random.seed(rseed)
+        if mode == "pval":
+            return EventSeriesClimateNetwork(cd, method=method + "_pval", **kw)
+        return EventSeriesClimateNetwork(cd, method=method, p_value=p_value, **kw)
+    rep.case()
+    net, exc = call(make)
+    if exc is not None:
+        rep.fail("EventSeriesClimateNetwork/%s-construct" % ("pval-method" if mode == "pval" else "p_value"),
+                 W, repr(exc))
+        rep.case(("escn_sig", arr.tobytes(), mode, method, sym, window, p_value, rseed), nontrivial=True)
+        return
+    cols0 = [ev_times(arr[:, i], None) for i in range(N)]
+    E0 = _exact_entries(cols0, method, taumax, lag, sym, window)
+    # surrogates: cumulative column shuffles in column order, n_surr times
+    rs = np.random.RandomState(rseed)
+    cur = arr.copy()
+    less = {k: 0 for k in E0}
+    undef_sur = set()
+    for _ in range(N_SURR):
+        for i in range(N):
+            col = cur[:, i].copy()
+            rs.shuffle(col)
+            cur[:, i] = col
+        cols = [ev_times(cur[:, i], None) for i in range(N)]
+        En = _exact_entries(cols, method, taumax, lag, sym, window)
+        for k, v0 in E0.items():
+            if v0 is not None and En[k] is None:
+                undef_sur.add(k)        # a surrogate without a defined score: level not asserted
+            elif v0 is not None:
+                # same numbers of events, hence the same ES normalisation: compare unscaled
+                if En[k][0] < v0[0]:
+                    less[k] += 1
+    rep.case()
+    sim = np.array(net.similarity_measure(), dtype=float)
+    A = np.array(net.adjacency).astype(int)
+    bad_s, bad_a, defined = [], [], False
+    for (i, j), v0 in E0.items():
+        if v0 is None or (i, j) in undef_sur:
+            continue          # undefined score (of the data or of a surrogate): not asserted (see UNDEF_NOTE)
+        defined = True
+        sig = less[i, j] / float(N_SURR)
+        if mode == "pval":
+            want = sig
+        else:
+            want = 0.0 if sig < 1.0 - p_value else abs(float(v0[0])) / v0[1]
+        if not agree(sim[i, j], want, 1e-6):
+            bad_s.append((i, j, sim[i, j], want, "significance %g" % sig))
+        if A[i, j] != (1 if want > 0 else 0):
+            bad_a.append((i, j, int(A[i, j]), 1 if want > 0 else 0))
+    name = "pval-method" if mode == "pval" else "p_value"
+    if bad_s:
+        rep.fail("EventSeriesClimateNetwork/%s-similarity" % name, W, "(i,j,got,expected,why): %r" % (bad_s[:3],))
+    if bad_a:
+        rep.fail("EventSeriesClimateNetwork/%s-adjacency" % name, W, "(i,j,got,expected): %r ; similarity %s"
+                 % (bad_a[:3], sim.tolist()))
+    if A.diagonal().any():
+        rep.fail("EventSeriesClimateNetwork/%s-adjacency" % name, W, "self-loops")
+    rep.case(("escn_sig", arr.tobytes(), mode, method, sym, window, p_value, rseed), nontrivial=defined,
+             sample=W if defined and mode == "pval" else None)
+
+
+def check_escn_wide(rep, obs, thr):
+    """More nodes than samples (the usual shape of gridded climate data): obs is T x N with N > T,
+    documented layout [time, variables].  The event matrix must be the T x N matrix of samples
+    beyond each node's threshold, the network must have N nodes."""
+    from pyunicorn.core import GeoGrid
+    from pyunicorn.climate import ClimateData
+    from pyunicorn.climate.eventseries_climatenetwork import EventSeriesClimateNetwork
+    T, N = len(obs), len(obs[0])
+    arr = np.array([[float(v) for v in row] for row in obs])
+    W = {"kind": "escn_wide", "obs": arr.tolist(), "thr": [thr[0], float(thr[1]), thr[2]]}
+    Em = np.array([S.threshold_events([row[i] for row in obs], thr[0], F(thr[1]), thr[2])[2]
+                   for i in range(N)]).T
+    rep.case(("escn_wide", arr.tobytes(), repr(thr)), nontrivial=bool(Em.any() and not Em.all()))
+
+    def make_es():
+        return ES()(arr.copy(), taumax=2.0, threshold_method=thr[0], threshold_values=float(thr[1]),
+                    threshold_types=thr[2])
+    es, exc = call(make_es)
+    got = None if exc is not None else np.asarray(es.get_event_matrix())
+    if exc is not None or got.shape != Em.shape or not np.array_equal(got.astype(int), Em):
+        rep.fail("EventSeries.__init__/threshold-more-variables-than-samples", W,
+                 "data[time, variables] of shape %s: expected the %s event matrix %s, got %s"
+                 % (arr.shape, Em.shape, Em.tolist(), repr(exc) if exc is not None else got.astype(int).tolist()))
+
+    def make():
+        grid = GeoGrid(time_seq=np.arange(T, dtype=float), lat_seq=np.linspace(-40., 40., N),
+                       lon_seq=np.linspace(5., 150., N))
+        cd = ClimateData(observable=arr.copy(), grid=grid, time_cycle=1, silence_level=3)
+        return EventSeriesClimateNetwork(cd, method="ES", taumax=2.0, threshold_method=thr[0],
+                                         threshold_values=float(thr[1]), threshold_types=thr[2],
+                                         silence_level=3)
+    rep.case()
+    net, exc = call(make)
+    if exc is not None:
+        rep.fail("EventSeriesClimateNetwork/construct-more-nodes-than-samples", W, repr(exc))
+        return
+    got = np.asarray(net.get_event_matrix())
+    if net.N != N or got.shape != Em.shape or not np.array_equal(got.astype(int), Em):
+        rep.fail("EventSeriesClimateNetwork/construct-more-nodes-than-samples", W,
+                 "N=%r, event matrix %s, expected N=%d and %s" % (net.N, got.astype(int).tolist(), N, Em.tolist()))
+
+
 # ------------------------------------------------------------------ jobs
 
 def bits(v, T):
@@ -1077,6 +1239,42 @@ def job_escn(rep, seed, count):
             rep.skip(UNDEF_NOTE)
             continue
         check_escn(rep, obs, method, tm, lag, sym, window, thr)
+
+
+def job_escn_sig(rep, seed, count):
+    """significance options of EventSeriesClimateNetwork on seeded binary observables"""
+    rng = np.random.RandomState(seed)
+    for c in range(count):
+        N = int(rng.randint(2, 5))
+        T = int(rng.randint(10, 19))
+        method = "ES" if c % 2 == 0 else "ECA"
+        sym = (ES_SYMS if method == "ES" else ECA_SYMS)[int(rng.randint(6 if method == "ES" else 4))]
+        window = WINDOWS[int(rng.randint(3))]
+        lag = [F(0), F(0), F(1)][int(rng.randint(3))]
+        tm = [None, F(1), F(3)][int(rng.randint(3))] if method == "ES" else F(int(rng.randint(0, 4)))
+        Em = (rng.rand(T, N) < rng.choice([0.3, 0.45, 0.6])).astype(int)
+        for i in range(N):            # at least four events per series: ES has inner events
+            while Em[:, i].sum() < 4:
+                Em[int(rng.randint(T)), i] = 1
+        if c % 5 == 0:
+            Em[:, 1] = np.roll(Em[:, 0], 1)          # a strongly synchronised pair
+        if set(np.unique(Em).tolist()) != {0, 1}:
+            continue
+        mode = "pval" if c % 3 == 2 else "p_value"
+        p_value = [1.0, 0.5, 0.25, 0.875, 0.0, 0.125][int(rng.randint(6))] if mode == "p_value" else None
+        check_escn_sig(rep, Em.tolist(), mode, method, tm, lag, sym, window, p_value,
+                       int(rng.randint(1, 2 ** 31 - 1)))
+
+
+def job_escn_wide(rep, seed, count):
+    """continuous observables with more nodes than samples"""
+    rng = np.random.RandomState(seed)
+    for c in range(count):
+        T = int(rng.randint(5, 9))
+        N = T + int(rng.randint(1, 4))
+        obs = [[F(int(v)) for v in row] for row in rng.randint(0, 9, size=(T, N))]
+        thr = ("quantile", F(int(rng.randint(3, 7)), 8), str(rng.choice(["above", "below"])))
+        check_escn_wide(rep, obs, thr)
 
 
 def job_threshold_dtype_exh(rep, L, lo, hi, all_dtypes):
@@ -1266,7 +1464,7 @@ JOBS = {"pairs": job_pairs, "randpairs": job_randpairs, "matrices": job_matrices
         "threshold_exh": job_threshold_exh, "threshold_rand": job_threshold_rand, "escn": job_escn,
         "threshold_dtype_exh": job_threshold_dtype_exh, "threshold_dtype_rand": job_threshold_dtype_rand,
         "scaled_pairs": job_scaled_pairs, "scaled_matrices": job_scaled_matrices,
-        "narrow_int_probe": job_narrow_int_probe}
+        "narrow_int_probe": job_narrow_int_probe, "escn_sig": job_escn_sig, "escn_wide": job_escn_wide}
 
 
 def run_job(spec):
@@ -1321,6 +1519,8 @@ def plan(args):
         jobs.append((args, "threshold_dtype_rand", (s + 400 + k, 300 if quick else 2000)))
         jobs.append((args, "scaled_pairs", (s + 500 + k, 30 if quick else 200)))
         jobs.append((args, "scaled_matrices", (s + 600 + k, 20 if quick else 120)))
+        jobs.append((args, "escn_sig", (s + 700 + k, 6 if quick else 40)))
+    jobs.append((args, "escn_wide", (s + 800, 6 if quick else 40)))
     L, alpha = (5, 3) if quick else (6, 4)
     tot = alpha ** L
     step = -(-tot // 8)
@@ -1379,6 +1579,12 @@ def replay(rep, w):
         obs = [[F(v) for v in row] for row in w["obs"]]
         thr = None if w["thr"] is None else (w["thr"][0], F(w["thr"][1]), w["thr"][2])
         check_escn(rep, obs, w["method"], frac(w["taumax"]), F(w["lag"]), w["sym"], w["window"], thr)
+    elif k == "escn_sig":
+        check_escn_sig(rep, w["E"], w["mode"], w["method"], frac(w["taumax"]), F(w["lag"]), w["sym"],
+                       w["window"], w["p_value"], w["rseed"])
+    elif k == "escn_wide":
+        obs = [[F(v) for v in row] for row in w["obs"]]
+        check_escn_wide(rep, obs, (w["thr"][0], F(w["thr"][1]), w["thr"][2]))
     else:
         raise ValueError("unknown witness kind %r" % (k,))
 
